@@ -4,4 +4,6 @@ go 1.23.0
 
 require github.com/xjslang/xjs v0.0.0
 
+require github.com/davecgh/go-spew v1.1.1 // indirect
+
 replace github.com/xjslang/xjs => /repo
